@@ -52,6 +52,8 @@ def scenarios(tier, seed):
         out.append(dict(name="lockstep-refresher-N%d-%s" % (n, "zq" if zq else "nozq"), kind="lockstep", seed=seed * 17 + j,
                         ncyc=8000 if tier == "quick" else 30000,
                         params=dict(tREFI=100 + 7 * n + j, N=n, tRP=2 + j % 3, tRFC=9 + j, tZQCS=5 + j % 4, zq=zq, zqperiod=601 + 90 * j, dmax=25)))
+    out.append(dict(name="b3-refresher", kind="b3", seed=seed, cfg="MC_Refresher_sim.cfg", num=6 if tier == "quick" else 60, depth=700,
+                    params=dict(tREFI=100, N=2, tRP=2, tRFC=3, tZQCS=2, zq=True, zqperiod=331, dmax=6)))
     return out
 
 
@@ -65,6 +67,23 @@ def _lockstep(sc, workdir):
     return dict(bad=[], evaluations=r["cycles"], nontrivial=[["lockstep", sc["name"]]] if r["refs"] > 10 else [], traces=1,
                 sample=dict(consts=r["consts"], refs=r["refs"], zqs=r["zqs"], first=r["sample"]), notes=notes,
                 lockstep=r["cycles"], stats=dict(lockstep_cycles=r["cycles"]))
+
+
+def _b3(sc, workdir):
+    """Spec -> code: TLC-generated behaviours of MC_Refresher (the multiplexer-shaped environment's cmd.ready per cycle) are replayed
+    into the real Refresher and compared in lock-step."""
+    from .. import b3, reflock
+    behs = b3.behaviours("MC_Refresher", sc["cfg"], workdir, num=sc["num"], depth=sc["depth"], seed=sc["seed"] + 1, var="ready", kind="scalar")
+    cyc = refs = 0
+    notes = []
+    for i, b in enumerate(behs):
+        r = reflock.run_ref(dict(seed=0, params=sc["params"], stimulus=b), workdir)
+        cyc += r["cycles"]; refs += r["refs"]
+        if r["mismatches"] and not notes:
+            notes.append("MODEL-DRIFT module=Refresher (TLC behaviour %d) cycle=%s signal=%s" % (i, r["mismatches"][0][0], r["mismatches"][0][1]))
+    return dict(bad=[], evaluations=cyc, nontrivial=[["b3", sc["name"], i] for i in range(len(behs))], traces=len(behs),
+                sample=dict(behaviours=len(behs), refreshes=refs, first_ready=behs[0][:12]), notes=notes, lockstep=cyc,
+                stats=dict(lockstep_cycles=cyc, tlc_behaviours_replayed=len(behs)))
 
 
 def models(tier, seed):
@@ -84,6 +103,8 @@ def models(tier, seed):
 def execute(sc, workdir):
     if sc.get("kind") == "lockstep":
         return _lockstep(sc, workdir)
+    if sc.get("kind") == "b3":
+        return _b3(sc, workdir)
     r = execute_core(sc, workdir, ID, ("dev", "ref"))
     nref = r["info"]["nref"]
     r["nontrivial"] = [[sc["name"].rsplit("-refi", 1)[0]]] if nref >= 20 else []
